@@ -192,6 +192,7 @@ where
     let (item_tx, mut sub) = tokio::sync::mpsc::unbounded_channel::<Option<selium::std::errors::Result<Item>>>();
     let (gate, mut gate_rx) = tokio::sync::watch::channel(false);
     let reader = tokio::spawn(async move {
+        let mut errs = 0u32;
         loop {
             // a subscriber that is momentarily not reading (back-pressure towards the publisher)
             while *gate_rx.borrow_and_update() {
@@ -201,7 +202,10 @@ where
             }
             let it = sub_stream.next().await;
             let end = it.is_none();
-            if item_tx.send(it).is_err() || end {
+            // a subscriber that has given up re-connecting answers every poll with the same error, at
+            // once and for ever: stop reading after a run of errors instead of piling them up
+            errs = if matches!(it, Some(Err(_))) { errs + 1 } else { 0 };
+            if item_tx.send(it).is_err() || end || errs >= 64 {
                 break;
             }
         }
@@ -480,7 +484,7 @@ fn main() {
     quiet_panics();
     let args: Vec<String> = std::env::args().collect();
     if args.get(1).map(|s| s.as_str()) == Some("gen-certs") {
-        gen_certs_here(Path::new(&args[2])).unwrap();
+        gen_certs_here(Path::new(&args[2]), args.get(3).map(|s| s == "no-expiry").unwrap_or(false)).unwrap();
         return;
     }
     let rt = tokio::runtime::Builder::new_multi_thread().worker_threads(6).enable_all().build().unwrap();
